@@ -173,7 +173,14 @@ def runtime_cases(draw, max_components=5, max_stages=3, fail_rate=6):
         cand = [r for r in sorted(nodes) if not nodes[r]["repeat"]]
         if cand:
             lockpass = sorted(draw(st.lists(st.sampled_from(cand), min_size=1, max_size=3, unique=True)))
-    return {"W": W, "script": script, "memo": sorted(memo), "late": late, "lockpass": lockpass}
+    # an eighth of the cases: the experiment is paused and woken up again (Controller.sleep()/wake_up(), elaunch's live
+    # patching cycle) once or twice while it runs
+    pauses = []
+    if draw(st.integers(0, 7)) == 0:
+        for _ in range(draw(st.integers(1, 2))):
+            pauses.append([draw(st.sampled_from([0, 0.5, 1, 1.5, 2, 2.5, 3, 4, 5, 6, 8, 12])),
+                           draw(st.sampled_from([1, 3, 6, 11, 23, 41]))])
+    return {"W": W, "script": script, "memo": sorted(memo), "late": late, "lockpass": lockpass, "pauses": pauses}
 
 
 # ----------------------------------------------------------------------------------------------------------
@@ -351,7 +358,8 @@ def run_case(case, ctx: Ctx, chooser: Chooser, max_decisions=6000):
                             on_component_run=mon.on_component_run, memoized=case.get("memo", ()),
                             delay_finished=case.get("late"),
                             pass_at_lock=(lambda ref, s=frozenset(case.get("lockpass") or ()): ref in s)
-                            if case.get("lockpass") else None)
+                            if case.get("lockpass") else None,
+                            pauses=case.get("pauses"))
         res = drv.run()
         return res, mon
     finally:
